@@ -204,10 +204,24 @@ func parseBool(s string) bool {
 	return s == "yes" || s == "on"
 }
 
+// isCgoCopy reports whether file is the processed copy that cmd/cgo makes of a Go file
+// (the go command analyses that copy instead of the file itself)
+func isCgoCopy(file *ast.File) bool {
+	if len(file.Comments) == 0 || len(file.Comments[0].List) == 0 {
+		return false
+	}
+	return strings.HasPrefix(file.Comments[0].List[0].Text, "// Code generated by cmd/cgo;")
+}
+
 // ShouldSkipFile returns true if the file should be skipped based on configuration
 func (c *Config) ShouldSkipFile(pass *analysis.Pass, file *ast.File) bool {
-	// The file's own name, not one a //line directive substitutes for it
+	// The file's own name, not one a //line directive substitutes for it - except for the
+	// copy cmd/cgo makes of a file that imports "C": the copy lives in the build cache and
+	// its //line directive names the file it was made from
 	position := pass.Fset.PositionFor(file.Pos(), false)
+	if isCgoCopy(file) {
+		position = pass.Fset.PositionFor(file.Pos(), true)
+	}
 	filename := position.Filename
 
 	// Check exclude paths first (always exclude testdata by default)
